@@ -11,49 +11,60 @@ import framework
 ID = 'C18'
 LEAN_MODULE = 'Proofs.C18'
 THEOREMS = ['Fsic.C18.' + n for n in [
-    'shorten_exits', 'shorten_terminates_acyclic', 'shorten_rounds', 'shorten_diverges_on_cycle', 'self_map_is_cycle',
-    'shorten_terminates_iff_acyclic', 'constructor_terminates_false_at_witness',
-    'constructor_terminates_false_at_cycle_witness', 'constructor_terminates_partial', 'selfmap_filter_dead',
+    'not_acyclic_iff_hasCycle', 'roots_spec', 'shorten_exits', 'shorten_bound_suffices', 'shorten_rounds',
+    'shorten_exhausts_on_cycle', 'shorten_breaks_iff_acyclic', 'selfmap_filter_dead', 'prefilter_not_dead',
+    'shortenAll_acyclic', 'shortenAll_cycle', 'constructor_terminates', 'constructor_raises_iff_cycle',
+    'constructor_returns_iff_acyclic', 'only_self_maps_accepted',
     'instance_aliases_shortened', 'alias_transparent_step', 'alias_transparent', 'alias_indistinguishable',
     'declared_alias_resolves_alike', 'ctor_transparent', 'ctor_indistinguishable', 'alias_no_storage', 'rename_only',
     'rename_injective', 'rename_no_pref', 'rename_prefers', 'prefCheck_rejects_ambiguous', 'rename_rejects_ambiguous',
     'rename_total_after_check', 'linOrd_strLe']]
-RULE = ('(A) every alias dict with keys from 4 alias names and values from those names + 2 variables + 1 undefined name: '
-        'all key subsets in fixed order (4096) and every key order up to size 3, plus maps whose keys shadow a variable; '
-        'acyclic ones are constructed in-process (self.aliases items and the resolution of every name compared with the '
-        'model and with the chain end computed by the oracle), cyclic ones only in watchdog subprocesses (6 per run). '
-        '(B) every acyclic map over 3 alias names (size <= 3) x every PREFERRED_NAMES list of <= 3 distinct names (and '
-        'repeated names): constructor accepts/raises. (C) export on a stub frame: class-level and post-construction '
-        'preferred_names, columns or exception class vs model, data/shape/labels vs oracle. (D) random histories of the '
-        'wrapped accessors (attribute, item, (name,label), label slice, replace_values, constructor keywords, strict) '
-        'on a BaseModel subclass vs the model: every result, final series, ad-hoc attributes. (E) oracle: parser-built '
-        'and hand-written models with random alias topologies (chains <= 3, many-to-one, undefined targets) driven '
-        'through random spellings vs a twin driven through canonical names: every result, full state by bits/dtype, '
-        'index, names, __dict__ keys, status/iterations after solve/solve_t/solve_period; export vs plain export. '
-        'distinct = distinct (part, alias map, preferences, history); non-trivial = the map has an alias and the '
-        'case goes through at least one name that is not canonical')
+RULE = ('(F) guard: 4 fixed cyclic/self maps are constructed in subprocesses (3 s limit, in parallel) before anything '
+        'else; a call that does not return is a violation and keeps cyclic/self maps out of the in-process parts of '
+        'that run. (A) every alias dict with keys from 4 alias names and values from those names + 2 variables + 1 '
+        'undefined name: all key subsets in fixed order (4096) and every key order up to size 3, plus maps whose keys '
+        'shadow a variable - plain, with self-maps and cyclic alike, constructed in-process: returned items and the '
+        'resolution of every name / rejection compared with the model; oracle: no cycle apart from self-maps => the '
+        'constructor returns and every name resolves to the end of its chain (X -> X is no alias), a cycle => the '
+        'constructor raises. (B) every such map without cycle over 3 alias names (size <= 3) x every PREFERRED_NAMES '
+        'list of <= 3 distinct names (and repeated names): constructor accepts/raises. (C) export on a stub frame: '
+        'class-level and post-construction preferred_names, columns or exception class vs model, data/shape/labels vs '
+        'oracle. (D) random histories of the wrapped accessors (attribute, item, (name,label), label slice, '
+        'replace_values, constructor keywords, strict) on a BaseModel subclass whose map has self-maps (25%) or a '
+        'cycle (4%) vs the model: every result, final series, ad-hoc attributes. (E) oracle: parser-built and '
+        'hand-written models with random alias topologies (chains <= 3, many-to-one, undefined targets, self-maps on '
+        'variables / unused / undefined names) driven through random spellings vs a twin driven through canonical '
+        'names: every result, full state by bits/dtype, index, names, __dict__ keys, status/iterations after '
+        'solve/solve_t/solve_period; export vs plain export. distinct = distinct (part, alias map, preferences, '
+        'history); non-trivial = the map is not empty and (D, E) the case goes through at least one declared name')
 TRUSTED = ['pandas DataFrame.rename(columns=d) maps each label through d, leaves other labels and all data alone '
            '(exercised by the export oracle on every case)',
            'Python set/dict semantics as modelled (set intersection size, dict insertion order, later key wins)',
            'str ordering by code point equals Lean String order (ASCII names only are generated)']
 ASSUMPTIONS = ['ALIASES is a dict of str to str; alias names are not names of attributes/methods of the object',
                'guard for "no column duplicated" and for the twin comparison: alias names are not themselves variable '
-               'names (shadowing is compared with the model only)',
+               'names (shadowing is compared with the model only); an entry X -> X is not an alias name',
                'weaker reading enforced: ambiguous PREFERRED_NAMES may be rejected at construction or at export; after '
                'construction only two preferred *aliases* of one variable must be rejected by the export (preferred '
                'alias + preferred variable name: not constrained); a variable with several aliases and no preference '
                'may keep its name or take any of its aliases',
-               'cyclic alias maps: non-termination is the known finding; a prompt exception, or dropping pure '
-               'self-maps, is accepted as meeting the property',
+               'self-maps are configurations of the property (its quantifier lists them): a map whose only cycles are '
+               'entries X -> X must be accepted and X -> X must behave as no alias (rejection = violation '
+               '`self-alias-rejected`); a map with a longer cycle names no variable for the aliases on it: the '
+               'constructor must reject it - any exception class counts as rejection, in the oracle and in the '
+               'comparison with the model (which says ValueError), as for PREFERRED_NAMES; returning a map is the '
+               'violation `cyclic-aliases-accepted`, not returning at all `self-alias-hang` / `alias-cycle-hang`',
+               'whether `self.aliases` still lists an entry X -> X is not an observable of the property (oracle); the '
+               'model comparison does compare the items',
                'label -> position lookup and NumPy assignment semantics are parameters of the model (C09/C10)',
                'read/write = the four wrapped accessors, replace_values, constructor keywords and code that uses them '
                '(weaker reading); paths the mixin does not wrap are not claimed: `name in model`, eval() of an expression '
                'that spells an alias, reindex(**fill_values) keyed by an alias are not alias-aware on the current tree']
 
 META = {
-    "text": "Theorems for every alias map, store, value semantics and operation history: the shortening loop of AliasMixin.__init__ exits within |map| rounds iff the map is acyclic, then every alias points at the end of its chain (distances double per round) and the k != v filter is dead code; with a self-map or cycle the exit test fails after every round (non-termination, negation proved at {'Y': 'Y'} and {'A': 'B', 'B': 'A'}); on an instance map every read/write/label access/bulk replacement/constructor keyword through a name is the plain container's operation on resolve(name), for all histories (refinement), two spellings that resolve alike are indistinguishable, the index never changes and no attribute named like an alias is ever created; the export changes labels only (data, count, order kept), a changed label is an alias of the old one, labels stay distinct under the guard, the preferred name is chosen, ambiguous preferences are rejected by the constructor check (iff) and by the export. The model is tied to the code by exhaustive comparison over small alias maps / preference lists and random histories; a twin-model oracle searches the real code.",
+    "text": "Theorems for every alias map, store, value semantics and operation history. Alias stage of AliasMixin.__init__ (self-map filter, loop bounded by range(len(aliases)+1), else: raise ValueError, second filter), at full strength for EVERY dict: if no cycle remains after dropping the entries X -> X it returns the remaining aliases each pointing at the end of its chain (len+1 passes always suffice: pigeonhole, distances double per pass), otherwise it raises ValueError - ValueError iff a cycle remains, both directions; {'Y': 'Y'} yields the empty map, {'A': 'B', 'B': 'A'} raises; the filter after the loop is dead code, the one in front is not. On an instance map every read/write/label access/bulk replacement/constructor keyword through a name is the plain container's operation on resolve(name), for all histories (refinement), two spellings that resolve alike are indistinguishable, the index never changes and no attribute named like an alias is ever created; the export changes labels only (data, count, order kept), a changed label is an alias of the old one, labels stay distinct under the guard, the preferred name is chosen, ambiguous preferences are rejected by the constructor check (iff) and by the export. The model is tied to the code by exhaustive comparison over small alias maps (plain, self-maps, cycles) / preference lists and random histories; a twin-model oracle searches the real code, self-maps included.",
     "design_ref": "DESIGN.md §5 M8, §6 C18, §7 row 14",
-    "note": "Trusted: Lean kernel; axioms propext/Classical.choice/Quot.sound; the correspondence harness, which validates the hand-written model on generated cases only; pandas rename and Python dict/set semantics as modelled. Known finding kept open: constructor never returns for self-maps/cycles (watchdog). Guards: alias names are not variable/attribute names (no-duplicate-column claim, twin oracle).",
+    "note": "Trusted: Lean kernel; axioms propext/Classical.choice/Quot.sound; the correspondence harness, which validates the hand-written model on generated cases only; pandas rename and Python dict/set semantics as modelled. Findings self-alias-hang / alias-cycle-hang fixed by ca9bf22 (a subprocess guard with a 3 s limit still watches for the hang; an in-process alarm backs it up). Guards: alias names are not variable/attribute names (no-duplicate-column claim, twin oracle).",
     "technique": "Lean 4 proof (loop invariant with chain doubling, pigeonhole, refinement by induction over histories) + differential correspondence check + twin-model oracle"
 }
 
@@ -143,11 +154,17 @@ def watchdog_collect(proc, deadline):
 # ---------------------------------------------------------------------------------------------------------------
 # oracle vocabulary: written from the property text, independent of the Lean model
 
+def strip_self(m):
+    """An entry X -> X names X itself: it is no alias."""
+    return {k: v for k, v in m.items() if k != v}
+
+
 def chain_end(m, name):
-    """The underlying variable of `name`: follow the declared aliases to the end.  None on a cycle/self-map."""
+    """The underlying variable of `name`: follow the declared aliases to the end (an entry X -> X ends a chain: X
+    names itself).  None if the chain runs into a cycle."""
     seen = set()
-    while name in m:
-        if name in seen or m[name] == name:
+    while name in m and m[name] != name:
+        if name in seen:
             return None
         seen.add(name)
         name = m[name]
@@ -155,12 +172,30 @@ def chain_end(m, name):
 
 
 def is_acyclic(m):
+    """No cycle apart from self-maps: every name has an underlying variable."""
     return all(chain_end(m, k) is not None for k in m)
 
 
-def only_self_cycles(m):
-    m2 = {k: v for k, v in m.items() if k != v}
-    return is_acyclic(m2)
+def has_self(m):
+    return any(k == v for k, v in m.items())
+
+
+def is_plain(m):
+    """Neither a cycle nor a self-map (the maps on which the code before ca9bf22 returned at all)."""
+    return is_acyclic(m) and not has_self(m)
+
+
+def kind_of(m):
+    return 'cycle' if not is_acyclic(m) else 'self' if has_self(m) else 'plain'
+
+
+def hang_key(m):
+    return {'plain': 'constructor-hang-acyclic', 'self': KEY_SELF_HANG, 'cycle': KEY_CYCLE_HANG}[kind_of(m)]
+
+
+# Set by the hang guard at the start of run(): False = some constructor call on a cyclic/self map did not return, so
+# no such map is constructed in-process in this run.
+CYCLIC_OK = [True]
 
 
 def pairs(items):
@@ -223,8 +258,8 @@ class Budget:
                 return cls(*args, **kwargs), None
         except Hang:
             self.hangs += 1
-            rep.violate('constructor-hang-acyclic', 'constructor did not return within 2 s for an alias map without '
-                        'self-map or cycle', case)
+            m = dict(cls.ALIASES)
+            rep.violate(hang_key(m), f'constructor did not return within 2 s for ALIASES={m} ({kind_of(m)} map)', case)
             return None, 'Hang'
         except Exception as e:  # noqa: BLE001
             return None, exc_name(e)
@@ -269,49 +304,81 @@ def enum_maps_A(tier):
     return out
 
 
+def judge_outcome(rep, case, m, returned, err, resolve, names):
+    """Oracle for the alias stage of the constructor.  `returned`: it returned; `err`: exception class name;
+    `resolve`: the instance's name resolution.  Returns the resolutions, or None."""
+    if not is_acyclic(m):
+        if returned:
+            rep.violate('cyclic-aliases-accepted', f'constructor accepted the cyclic map ALIASES={m}: an alias on a '
+                        'cycle names no variable', case)
+        return None          # rejected (whatever the exception class): conforming
+    if not returned:
+        if has_self(m):
+            rep.violate('self-alias-rejected', f'constructor raised {err} for ALIASES={m}: an entry X -> X names X '
+                        'itself and no cycle remains without it', case)
+        else:
+            rep.violate('acyclic-map-rejected', f'constructor raised {err} for an acyclic alias map (ALIASES={m})', case)
+        return None
+    try:
+        res = [(n, resolve(n)) for n in names]
+    except Exception as e:  # noqa: BLE001
+        rep.violate('resolve-raises', f'_resolve_alias raised {exc_name(e)} (ALIASES={m})', case)
+        return None
+    # every name resolves to the end of its chain (itself when it is not an alias / maps to itself)
+    for n, got in res:
+        want = chain_end(m, n)
+        if got != want:
+            rep.violate('resolve-not-chain-end', f'name {n!r} resolves to {got!r}, the end of its chain is '
+                        f'{want!r} (ALIASES={m})', case)
+            break
+    return res
+
+
 def check_shorten(ctx, rep, maps, names, label, budget=None):
-    """Acyclic maps only.  impl vs model (T) and impl vs chain end (S)."""
+    """Every kind of map (plain, with self-maps, cyclic), in-process.  impl vs model (T): returned items and
+    resolutions / rejected; impl vs chain end, cycle rejected, self-map = no alias (S)."""
     budget = budget or Budget()
     impl, cases = [], []
     for items in maps:
         if budget.exhausted:
             break
         m = dict(items)
+        kind = kind_of(m)
+        if kind != 'plain' and not CYCLIC_OK[0]:
+            continue
         case = {'part': 'shorten', 'm': items, 'names': names}
         inst, err = budget.construct(rep, case, stub_class(items))
-        nontrivial = any(chain_end(m, k) != k for k in m)
-        rep.case(('A', tuple(map(tuple, items))), nontrivial=nontrivial,
-                 sample=sample_once('A', 2999, rep.evaluations, {'part': 'A', 'ALIASES': m}))
+        rep.case(('A', tuple(map(tuple, items))), nontrivial=bool(m),
+                 sample=sample_once('A', 2999, rep.evaluations, {'part': 'A', 'ALIASES': m, 'kind': kind}))
         rep.dist[f'{label}:size{len(items)}'] += 1
+        rep.dist[f'{label}:{kind}'] += 1
         depth = max([sum(1 for _ in _chain(m, k)) for k in m] or [0])
         rep.dist[f'{label}:chain{depth}'] += 1
+        if err == 'Hang':
+            continue             # reported by the budget; nothing to compare
+        if inst is None and kind == 'cycle':
+            rep.dist[f'{label}:cycle-rejected:{err}'] += 1
+        res = judge_outcome(rep, case, m, inst is not None, err, inst._resolve_alias if inst is not None else None,
+                            names)
         if inst is None:
-            if err != 'Hang':
-                rep.violate('acyclic-map-rejected', f'constructor raised {err} for an acyclic alias map', case)
-            impl.append('raised:' + str(err))
-            cases.append(case)
-            continue
-        try:
-            res = [(n, inst._resolve_alias(n)) for n in names]
-            s = pairs(inst.aliases.items()) + '|' + pairs(res)
-        except Exception as e:  # noqa: BLE001
-            res, s = None, 'raised:' + exc_name(e)
+            s = 'rejected'
+        else:
+            try:
+                res = res if res is not None else [(n, inst._resolve_alias(n)) for n in names]
+                s = pairs(inst.aliases.items()) + '|' + pairs(res)
+            except Exception as e:  # noqa: BLE001
+                s = 'raised:' + exc_name(e)
         impl.append(s)
         cases.append(case)
-        # oracle: every name resolves to the end of its chain (itself when it is not an alias)
-        if res is not None:
-            for n, got in res:
-                want = chain_end(m, n)
-                if got != want:
-                    rep.violate('resolve-not-chain-end', f'name {n!r} resolves to {got!r}, the end of its chain is '
-                                f'{want!r} (ALIASES={m})', case)
-                    break
     if not ctx.oracle_only and cases:
         outs = ctx.drive([line('alias_shorten', {'m': c['m'], 'names': c['names']}) for c in cases])
         for c, a, b in zip(cases, outs, impl):
-            a2 = a.split('|', 1)[1] if '|' in a else a
+            # the model's `ValueError` is matched by any exception of the constructor (class and message are not
+            # compared, as for the PREFERRED_NAMES check)
+            a2 = 'rejected' if a == 'ValueError' else a.split('|', 1)[1] if '|' in a else a
             if unordered_items(a2) != unordered_items(b):
-                rep.disagree('AliasMixin.__init__ shortening / _resolve_alias: model != impl', c, a2, b)
+                rep.disagree('AliasMixin.__init__ alias stage (filter, shortening, ValueError) / _resolve_alias: '
+                             'model != impl', c, a2, b)
             elif '|' in a:
                 rep.dist[f'{label}:rounds{a.split("|", 1)[0]}'] += 1
 
@@ -333,64 +400,42 @@ def _chain(m, k):
 
 
 # ---------------------------------------------------------------------------------------------------------------
-# (F) cyclic maps, subprocess only
+# (F) guard against a regression to the constructor that never returns: a few cyclic/self maps in subprocesses
 
-def cyclic_cases(rng):
-    fixed = [[['Y', 'Y']], [['A', 'B'], ['B', 'A']], [['p', 'q'], ['q', 'q']], [['p', 'q'], ['q', 'r'], ['r', 'p']]]
-    extra = []
-    while len(extra) < 2:
-        size = rng.choice([2, 3, 4])
-        ks = rng.sample(A_KEYS, size)
-        items = [[k, rng.choice(A_VALS)] for k in ks]
-        if not is_acyclic(dict(items)) and items not in fixed and items not in extra:
-            extra.append(items)
-    return fixed + extra
+GUARD_MAPS = [[['Y', 'Y']], [['A', 'B'], ['B', 'A']], [['p', 'q'], ['q', 'q']], [['p', 'q'], ['q', 'r'], ['r', 'p']]]
 
 
-def start_cyclic(ctx, rng):
-    return [(items, watchdog_start(items)) for items in cyclic_cases(rng)]
+def judge_watchdog(rep, case, m, res):
+    """True = the constructor call came back (one way or the other)."""
+    if res['outcome'] == 'hang':
+        rep.violate(hang_key(m), f'AliasMixin.__init__ does not return (watchdog, {WATCHDOG_SECONDS} s) for '
+                    f'ALIASES={m}', case)
+        return False
+    if res['outcome'] == 'exc':
+        judge_outcome(rep, case, m, False, res['cls'], None, [])
+    elif res['outcome'] == 'ok':
+        got = dict(tuple(x) for x in res['aliases'])
+        judge_outcome(rep, case, m, True, None, lambda n: got.get(n, n), list(m) + list(m.values()))
+    else:
+        rep.violate('cyclic-watchdog-crash', f'watchdog subprocess crashed for {m}: {res}', case)
+    return True
 
 
-def finish_cyclic(ctx, rep, started, t_started):
-    deadline = t_started + WATCHDOG_BACKSTOP
-    lines_ = []
+def hang_guard(ctx, rep):
+    """Runs before any in-process use of a cyclic or self map.  True = all calls came back."""
+    t0 = time.time()
+    started = [(items, watchdog_start(items)) for items in GUARD_MAPS]
+    safe = True
     for items, proc in started:
         m = dict(items)
         case = {'part': 'cyclic', 'm': items}
-        res = watchdog_collect(proc, max(deadline, time.time() + 1.0))
-        selfonly = only_self_cycles(m)
+        res = watchdog_collect(proc, max(t0 + WATCHDOG_BACKSTOP, time.time() + 1.0))
         rep.case(('F', tuple(map(tuple, items))), nontrivial=True,
                  sample={'part': 'F', 'ALIASES': m, 'outcome': res} if not _SAMPLED.get('F') else None)
         _SAMPLED['F'] = 1
-        rep.dist['cyclic:' + res['outcome'] + (':' + res.get('cls', '') if res['outcome'] == 'exc' else '')] += 1
-        judge_cyclic(rep, case, m, res, selfonly)
-        lines_.append(case)
-    if not ctx.oracle_only:
-        outs = ctx.drive([line('alias_shorten', {'m': c['m'], 'names': []}) for c in lines_])
-        for c, a in zip(lines_, outs):
-            if a != 'diverges':
-                rep.disagree('cyclic map: model (built from the current loop) must predict non-termination', c, a,
-                             'cyclic')
-
-
-def judge_cyclic(rep, case, m, res, selfonly):
-    if res['outcome'] == 'hang':
-        rep.violate(KEY_SELF_HANG if selfonly else KEY_CYCLE_HANG,
-                    f'AliasMixin.__init__ does not return (watchdog) for ALIASES={m}', case)
-    elif res['outcome'] == 'exc':
-        rep.notes.append(f'cyclic map {m}: constructor raised {res["cls"]} promptly - accepted; the Lean model still '
-                         'describes the non-terminating loop (model drift)')
-    elif res['outcome'] == 'ok':
-        got = [tuple(x) for x in res['aliases']]
-        m2 = {k: v for k, v in m.items() if k != v}
-        want = {k: chain_end(m2, k) for k in m2} if selfonly else None
-        if want is not None and dict(got) == want:
-            rep.notes.append(f'self-map in {m}: constructor dropped it and returned {dict(got)} - accepted (model drift)')
-        else:
-            rep.violate('cyclic-aliases-accepted', f'constructor returned aliases={dict(got)} for the cyclic map {m}: '
-                        'an alias on a cycle names no variable', case)
-    else:
-        rep.violate('cyclic-watchdog-crash', f'watchdog subprocess crashed for {m}: {res}', case)
+        rep.dist['guard:' + res['outcome'] + (':' + res.get('cls', '') if res['outcome'] == 'exc' else '')] += 1
+        safe = judge_watchdog(rep, case, m, res) and safe
+    return safe
 
 
 # ---------------------------------------------------------------------------------------------------------------
@@ -407,7 +452,7 @@ def enum_maps_B():
         for ks in itertools.combinations(B_KEYS, size):
             for vs in itertools.product(B_VALS, repeat=size):
                 items = [list(x) for x in zip(ks, vs)]
-                if is_acyclic(dict(items)):
+                if is_acyclic(dict(items)) and (CYCLIC_OK[0] or is_plain(dict(items))):
                     out.append(items)
     return out
 
@@ -484,6 +529,7 @@ def export_oracle(rep, case, m, pref, base, out, err, declared_pref_valid):
     """`base` = to_dataframe(), `out` = to_dataframe(use_aliases=True) or None with `err` the exception class.
     `pref` = the instance's preferred_names at export time; `declared_pref_valid`: they are the class-level ones
     (so they passed the constructor)."""
+    m = strip_self(m)      # an entry X -> X is no alias
     labels = [str(c) for c in base.columns]
     keys_shadow = any(k in labels for k in m)
     aliases_of = {}
@@ -540,7 +586,8 @@ def same_columns(m, pref, cols, model_out, impl_out):
     """Model vs implementation on the exported labels.  Where the property is silent - a variable with several
     aliases none of which (nor its own name) is preferred - any of its names is accepted; a raise is compared as a
     raise, whatever its class."""
-    model_raises = model_out in ('ValueError', 'diverges')
+    m = strip_self(m)
+    model_raises = model_out in ('ValueError', 'ctor:ValueError')
     impl_raises = impl_out.startswith('!')
     if model_raises or impl_raises:
         return model_raises and impl_raises and model_out == 'ValueError'
@@ -585,7 +632,7 @@ def check_export_stub(ctx, rep, rng, n_random, budget=None):
         keys = rng.sample(sk + ['s', 'X'], size) if rng.random() < 0.15 else rng.sample(sk + ['s'], size)
         items = [[k, rng.choice(['X', 'X', 'Y', 'Z', 'U', 'status'] + sk)] for k in keys]
         m = dict(items)
-        if not is_acyclic(m):
+        if not is_acyclic(m) or not (CYCLIC_OK[0] or is_plain(m)):
             continue
         names = list(m) + ['X', 'Y', 'Z']
         pref = rng.sample(names, rng.choice([0, 1, 1, 2]))
@@ -639,7 +686,9 @@ D_UNDEF = ['zzz', 'qqq']
 D_SPAN0 = 10
 
 
-def random_alias_map(rng, variables, alias_pool, undefined, shadow_p=0.0, max_n=5):
+def random_alias_map(rng, variables, alias_pool, undefined, shadow_p=0.0, max_n=5, self_p=0.25):
+    """Acyclic; with probability `self_p` one or two entries X -> X (X a variable, an alias name that is otherwise
+    unused, or an undefined name) are mixed in: they must behave as no alias."""
     n = rng.randrange(0, max_n + 1)
     names = rng.sample(alias_pool, min(n, len(alias_pool)))
     items = []
@@ -661,15 +710,27 @@ def random_alias_map(rng, variables, alias_pool, undefined, shadow_p=0.0, max_n=
         x, y = rng.sample(variables, 2) if len(variables) > 1 else (variables[0], variables[0])
         if x != y:
             items.append([x, y])
+    if rng.random() < self_p:
+        taken = {k for k, _ in items}
+        free = [x for x in list(variables) + list(alias_pool) + list(undefined) if x not in taken]
+        for x in rng.sample(free, min(len(free), rng.choice([1, 1, 2]))):
+            items.append([x, x])
     rng.shuffle(items)
     if not is_acyclic(dict(items)):
-        return random_alias_map(rng, variables, alias_pool, undefined, shadow_p, max_n)
+        return random_alias_map(rng, variables, alias_pool, undefined, shadow_p, max_n, self_p)
     return items
 
 
 def gen_history_case(rng):
     n = rng.choice([2, 3, 4])
     items = random_alias_map(rng, Plain.NAMES, D_ALIAS, D_UNDEF, shadow_p=0.1)
+    if rng.random() < 0.04:
+        # a cycle (with a tail now and then): the constructor must raise, as the model does
+        free = [x for x in D_ALIAS if x not in dict(items)]
+        if len(free) >= 2:
+            cyc = rng.sample(free, rng.choice([2, 2, 3]) if len(free) >= 3 else 2)
+            items = items + [[a, b] for a, b in zip(cyc, cyc[1:] + cyc[:1])]
+            rng.shuffle(items)
     m = dict(items)
     pool = list(m) + Plain.NAMES + D_UNDEF[:1] + ['memo']
     strict = rng.random() < 0.2
@@ -738,7 +799,7 @@ def run_history_impl(case, budget, rep):
             a = cls(span, strict=case['strict'], **{k: v for k, v in case['kwargs']})
     except Hang:
         budget.hangs += 1
-        rep.violate('constructor-hang-acyclic', 'constructor did not return within 2 s for an acyclic alias map', case)
+        rep.violate(hang_key(dict(items)), f'constructor did not return within 2 s for ALIASES={dict(items)}', case)
         return 'hang'
     except Exception as e:  # noqa: BLE001
         return 'ctor:' + canon_err(e)
@@ -795,8 +856,13 @@ def check_histories(ctx, rep, rng, count, budget=None):
         if budget.exhausted:
             break
         case = gen_history_case(rng)
-        s = run_history_impl(case, budget, rep)
         m = dict(case['m'])
+        if not CYCLIC_OK[0] and not is_plain(m):
+            continue
+        s = run_history_impl(case, budget, rep)
+        if not is_acyclic(m) and not s.startswith('ctor:') and s != 'hang':
+            rep.violate('cyclic-aliases-accepted', f'constructor accepted the cyclic map ALIASES={m}', case)
+        rep.dist['history-map:' + kind_of(m)] += 1
         through_alias = any(op.get('n') in m for op in case['ops']) or any(k in m for k, _ in case['kwargs']) or any(
             x in m for op in case['ops'] if op['op'] == 'replace' for x, _ in op['kvs'])
         rep.case(('D', json.dumps(case, sort_keys=True)), nontrivial=through_alias,
@@ -988,7 +1054,7 @@ def gen_twin_case(rng):
         elif k == 'solve_period':
             op.update(p=span[rng.randrange(1, n)], max_iter=rng.choice([1, 5, 30]))
         ops.append(op)
-    names_for_pref = list(m) + variables
+    names_for_pref = list(dict.fromkeys(list(m) + variables))   # X -> X with X a variable: once
     pref = rng.sample(names_for_pref, min(len(names_for_pref), rng.choice([0, 0, 1, 2, 3])))
     return {'part': 'twin', 'hw': hw, 'script': script, 'm': items, 'span': span, 'strict': rng.random() < 0.15,
             'kwargs': kwargs, 'ops': ops, 'pref': pref, 'hwseed': rng.randrange(1 << 30)}
@@ -1053,7 +1119,7 @@ def run_twin_case(ctx, rep, case, budget, tcases=None):
                 a, aerr = None, exc_name(e)
     except Hang:
         budget.hangs += 1
-        rep.violate('constructor-hang-acyclic', 'constructor did not return within 2 s for an acyclic alias map', jc)
+        rep.violate(hang_key(m), f'constructor did not return within 2 s for ALIASES={m}', jc)
         return 'hang'
     try:
         t, terr = TwinBase(case['span'], strict=case['strict'], **kw_t), None
@@ -1126,8 +1192,11 @@ def check_twins(ctx, rep, rng, count, budget=None):
         if budget.exhausted:
             break
         case = gen_twin_case(rng)
-        regime = run_twin_case(ctx, rep, case, budget, tcases)
         m = dict(case['m'])
+        if not CYCLIC_OK[0] and not is_plain(m):
+            continue
+        regime = run_twin_case(ctx, rep, case, budget, tcases)
+        rep.dist['twin-map:' + kind_of(m)] += 1
         through = any(x in m for op in case['ops'] for x in op['names']) or any(k in m for k in case['kwargs'])
         jc = jsonable_case(case)
         rep.case(('E', json.dumps(jc, sort_keys=True, default=str)), nontrivial=through,
@@ -1150,15 +1219,19 @@ def check_twins(ctx, rep, rng, count, budget=None):
 def run(ctx, rep):
     quick = ctx.tier == 'quick'
     _SAMPLED.clear()
-    t0 = time.time()
-    started = start_cyclic(ctx, ctx.sub_rng('cyclic'))
+    # guard first: a constructor that never returns for a cyclic/self map must not hang the check
+    CYCLIC_OK[0] = hang_guard(ctx, rep)
+    if not CYCLIC_OK[0]:
+        rep.notes.append('hang guard tripped: cyclic maps and self-maps are not constructed in-process in this run')
     budget = Budget()
     # probe: the simplest acyclic maps must construct at all (guards every in-process part below)
     check_shorten(ctx, rep, [[], [['GDP', 'Y']], [['a', 'b'], ['b', 'Y']]], ['GDP', 'a', 'b', 'Y'], 'probe', budget)
     if not budget.hangs:
-        maps = [m for m in enum_maps_A(ctx.tier) if is_acyclic(dict(m))]
+        maps = enum_maps_A(ctx.tier)
         check_shorten(ctx, rep, maps, A_NAMES, 'A', budget)
-        rep.notes.append(f'(A) {len(maps)} acyclic alias maps enumerated')
+        kinds = [kind_of(dict(m)) for m in maps]
+        rep.notes.append(f'(A) {len(maps)} alias maps enumerated: ' + ', '.join(
+            f'{kinds.count(k)} {k}' for k in ('plain', 'self', 'cycle')))
     if not budget.exhausted:
         mapsB, prefs = enum_maps_B(), enum_prefs(ctx.tier)
         check_prefcheck(ctx, rep, mapsB, prefs, budget)
@@ -1169,20 +1242,23 @@ def run(ctx, rep):
         check_histories(ctx, rep, ctx.sub_rng('history'), (2500 if quick else 60000) * ctx.scale, budget)
     if not budget.exhausted:
         check_twins(ctx, rep, ctx.sub_rng('twin'), (700 if quick else 15000) * ctx.scale, budget)
-    finish_cyclic(ctx, rep, started, t0)
     rep.exhaustive = False
 
 
 def replay(ctx, rep, case):
     part = case.get('part')
     budget = Budget()
+    items = case.get('m')
+    if items is not None and not is_plain(dict(items)):
+        # a cyclic/self map goes through the watchdog before it is touched in-process
+        res = watchdog_collect(watchdog_start(items), time.time() + WATCHDOG_BACKSTOP)
+        print('  watchdog:', res)
+        if not judge_watchdog(rep, case, dict(items), res) or part == 'cyclic':
+            return
     if part == 'shorten':
         check_shorten(ctx, rep, [case['m']], case['names'], 'replay', budget)
     elif part == 'cyclic':
-        proc = watchdog_start(case['m'])
-        res = watchdog_collect(proc, time.time() + WATCHDOG_BACKSTOP)
-        print('  watchdog:', res)
-        judge_cyclic(rep, case, dict(case['m']), res, only_self_cycles(dict(case['m'])))
+        check_shorten(ctx, rep, [case['m']], sorted(set(sum(case['m'], []))), 'replay', budget)
     elif part == 'prefcheck':
         check_prefcheck(ctx, rep, [case['m']], [case['pref']], budget)
     elif part == 'export-stub':
